@@ -9,7 +9,8 @@ Definition Reqb (a b : R) : bool := if Req_EM_T a b then true else false.
 
 Definition rops : sops R := {|
   s0 := 0; s1 := 1; sadd := Rplus; smul := Rmult; ssub := Rminus; sopp := Ropp;
-  sdiv := Rdiv; ssqrt := sqrt; sltb := Rltb; sleb := Rleb; seqb := Reqb; sabs := Rabs |}.
+  sdiv := Rdiv; ssqrt := sqrt; sltb := Rltb; sleb := Rleb; seqb := Reqb; sabs := Rabs;
+  snormal := fun x => negb (Reqb x 0) |}.
 
 Lemma rops_ring : ring_theory (s0 rops) (s1 rops) (sadd rops) (smul rops) (ssub rops) (sopp rops) (@eq R).
 Proof. exact RTheory. Qed.
